@@ -292,7 +292,7 @@ def md_unit(ctx, src, name):
         Rule('w.str().data()', 'C10_writer_data(&w)', count=1),
         Rule(r'\bw\.size\(\)', 'C10_writer_size(&w)', count='+', regex=True),
         # either byte order of the length store is accepted here: which one the code uses is for the verifier to judge
-        Rule(r'\bw\.(write|put_u8|extend_to|pput_u64l|pput_u64b)\(', r'C10_writer_\1(&w, ', count=4, regex=True),
+        Rule(r'\bw\.(write|put_u8|put_u32l|put_u32b|extend_to|pput_u64l|pput_u64b|pput_u32l|pput_u32b|pput_u16l|pput_u16b|pput_u8)\(', r'C10_writer_\1(&w, ', count='+', regex=True),
         # the state handed to the first block
         Rule('size_t processed_offset;', 'g_iv_ok = C10_STATE_IS_IV(self); size_t processed_offset;', count=1),
     ]
@@ -319,7 +319,7 @@ def md_unit(ctx, src, name):
         brules.insert(0, Rule(r'\((a0|b0|c0|d0)\)', r'(self->\1)', count=4, regex=True))     # implicit this
     btext = u.function(src, HCC, A['bin'], new_header='void %s_bin(const %s* self, C10_writer* w)' % (name, name), rules=brules)
     # the stub members each function really calls (a contract can only replace a function that occurs in the goto model)
-    called = lambda text: sorted(set('C10_writer_' + m for m in re.findall(r'\bC10_writer_(init|write|put_u8|put_u32l|put_u32b|extend_to|pput_u64l|pput_u64b)\(', text)))
+    called = lambda text: sorted(set('C10_writer_' + m for m in re.findall(r'\bC10_writer_(init|write|put_u8|put_u32l|put_u32b|extend_to|pput_u64l|pput_u64b|pput_u32l|pput_u32b|pput_u16l|pput_u16b|pput_u8)\(', text)))
     u.ctor_stubs, u.bin_stubs = called(ctext), called(btext)
     u.function(src, HCC, A['hex'], new_header='void %s_hex(const %s* self, C10_hexstr* ret)' % (name, name),
                rules=[Rule('return string_printf(', 'C10_string_printf_%d(ret, ' % A['nw'], count=1)])
